@@ -36,7 +36,8 @@ pub fn run<C: Suite>(ctx: &mut Ctx) {
     let slow = C::NAME == "ed448";
     let shapes_v: Vec<(u16, u16)> = match (ctx.quick(), slow) {
         (true, true) => vec![(2, 2), (3, 2), (3, 3)],
-        (true, false) => vec![(2, 2), (3, 2), (3, 3), (4, 2), (4, 3), (4, 4), (5, 3), (5, 5)],
+        // (6, 2): the smallest shape with t < n/2
+        (true, false) => vec![(2, 2), (3, 2), (3, 3), (4, 2), (4, 3), (4, 4), (5, 3), (5, 5), (6, 2)],
         (false, true) => shapes(5),
         (false, false) => shapes(7),
     };
